@@ -23,6 +23,7 @@ pub fn dispatch(f: &[&str]) -> String {
                    if f[1] == "ref" { f_dec(&items.iter().sum::<BigDecimal>()) } else { f_dec(&items.into_iter().sum::<BigDecimal>()) } }
         "cmp" => cmp_op(f[1], f[2], f[3]),
         "hash" => hash_op(f[1]),
+        "from_float" => from_float(f[1], f[2], f[3]),
         "to_prim" => to_prim(f[1], f[2], f[3]),
         "to_bigint" => match p_dec(f[1]).to_bigint() { Some(v) => v.to_string(), None => "None".to_string() },
         "is_integer" => p_dec(f[1]).is_integer().to_string(),
@@ -233,4 +234,15 @@ fn hash_op(a: &str) -> String {
     let mut r = Rec(vec![]);
     x.hash(&mut r);
     r.0.iter().map(|b| b.to_string()).collect::<Vec<_>>().join(",")
+}
+
+fn from_float(ty: &str, entry: &str, bits: &str) -> String {
+    use std::convert::TryFrom;
+    match (ty, entry) {
+        ("f32", "try_from") => match BigDecimal::try_from(p_f32(bits)) { Ok(d) => f_dec(&d), Err(_) => "Err".to_string() },
+        ("f64", "try_from") => match BigDecimal::try_from(p_f64(bits)) { Ok(d) => f_dec(&d), Err(_) => "Err".to_string() },
+        ("f32", _) => match BigDecimal::from_f32(p_f32(bits)) { Some(d) => f_dec(&d), None => "Err".to_string() },
+        ("f64", _) => match BigDecimal::from_f64(p_f64(bits)) { Some(d) => f_dec(&d), None => "Err".to_string() },
+        _ => "UNKNOWN-FLOAT".to_string(),
+    }
 }
